@@ -92,6 +92,9 @@ pub struct World {
     /// complement) and its neighbours, the target itself, all-zero / all-one ids. The addresses
     /// belong to nobody. 0 = honest lists.
     pub hostile_lists: f64,
+    /// Names appended to the node lists of get_peers replies only (never to find_node replies): nodes
+    /// a querier first hears of in the middle of a search.
+    pub search_only_names: Vec<(Id, SocketAddr)>,
 }
 
 /// Adversarial node-list entries around `target` (see `World::hostile_lists`); `salt` varies them.
@@ -212,6 +215,7 @@ impl World {
             omit_silent: false,
             extra_names: Vec::new(),
             hostile_lists: 0.0,
+            search_only_names: Vec::new(),
         }
     }
 
@@ -314,7 +318,8 @@ impl World {
                     }
                     Query::GetPeers { info_hash, .. } => {
                         served.target = Some(*info_hash);
-                        let nodes = list(self, info_hash);
+                        let mut nodes = list(self, info_hash);
+                        nodes.extend(self.search_only_names.iter().filter(|(_, a)| a.is_ipv6() == v6).copied());
                         served.nodes = nodes.clone();
                         if v6 {
                             reply.nodes6 = nodes;
@@ -475,6 +480,9 @@ pub struct HammerStats {
     pub calls: u64,
     /// Calls that did not complete within 2 virtual seconds or reported a dead node: (time, what).
     pub failed: Vec<(Micros, String)>,
+    /// Virtual instants at which calls were issued (to measure how often a call shared its instant
+    /// with an internal event of the node, e.g. a bootstrap state change).
+    pub instants: std::collections::HashSet<Micros>,
 }
 
 pub fn api_hammer(net: &Net, dht: &MainlineDht, addr: SocketAddr, seed: u64, p: f64, max_bursts: u64) -> Arc<Mutex<HammerStats>> {
@@ -522,6 +530,8 @@ pub fn api_hammer(net: &Net, dht: &MainlineDht, addr: SocketAddr, seed: u64, p: 
                 {
                     let mut st = stats3.lock().unwrap();
                     st.calls += 1;
+                    let now = net3.now();
+                    st.instants.insert(now);
                     if let Some(b) = bad {
                         st.failed.push((net3.now(), b));
                     }
